@@ -33,6 +33,29 @@ fn main() {
         "programinfo" => probe::<ProgramInfo>(&bytes),
         "stackoutputs" => probe::<StackOutputs>(&bytes),
         "libpath" => probe::<miden_assembly::LibraryPath>(&bytes),
+        "ast" => {
+            // bytes are the UTF-8 source text of a program: parse, serialise, deserialise, compare, recompile
+            let src = String::from_utf8(bytes.clone()).unwrap();
+            match miden_assembly::ast::ProgramAst::parse(&src) {
+                Err(e) => format!("REJECTED parse: {e}"),
+                Ok(ast) => {
+                    let out = ast.to_bytes(miden_assembly::ast::AstSerdeOptions::new(false));
+                    match miden_assembly::ast::ProgramAst::from_bytes(&out) {
+                        Err(e) => format!("ROUNDTRIP-MISMATCH own bytes rejected: {e}"),
+                        Ok(back) => {
+                            let a = miden_assembly::Assembler::default().compile_ast(&ast).map(|p| p.hash());
+                            let b = miden_assembly::Assembler::default().compile_ast(&back).map(|p| p.hash());
+                            match (a, b) {
+                                (Ok(x), Ok(y)) if x == y && back == ast => "ROUNDTRIP-OK".to_string(),
+                                (Ok(x), Ok(y)) if x == y => "ROUNDTRIP-MISMATCH ast differs (same MAST root)".to_string(),
+                                (x, y) => format!("ROUNDTRIP-MISMATCH compile: {:?} vs {:?}", x.map(|h| h.to_string()), y.map(|h| h.to_string())),
+                            }
+                        }
+                    }
+                }
+            }
+        }
+        "instr" => match <miden_assembly::ast::Instruction as Deserializable>::read_from_bytes(&bytes) { Ok(i) => format!("ACCEPTED {i}"), Err(e) => format!("REJECTED {e}") },
         "proof" => match miden_air::ExecutionProof::from_bytes(&bytes) { Ok(_) => "ACCEPTED".into(), Err(e) => format!("REJECTED {e}") },
         _ => "unknown type".to_string(),
     });
